@@ -166,13 +166,31 @@ OneResponsePerRequestStep(kind, s, e, auth, ok, m) ==
                    content |-> Pending, num |-> <<0, 0>>]
            /\ UNCHANGED <<proxyVars, nn, sg>>
 
+\* a child that presents ONE provisioning request (one key) at a time: at
+\* most that one response is handed over, or that one request is queued;
+\* everything else that waits for the child keeps waiting
+SyncOneEffect(c, ok) ==
+    LET given == resp[c] \ resp'[c]
+        added == reqs'[c] \ reqs[c] IN
+    /\ Cardinality(given) + Cardinality(added) <= 1
+    /\ given \subseteq want[c] /\ resp'[c] \subseteq resp[c]
+    /\ added \subseteq want[c] \ resp[c]
+    /\ \A r \in given :
+         /\ r \notin want'[c] /\ r \notin reqs'[c]
+         /\ IF IsIssue(r) THEN KeyOf(r) \in have'[c]
+                          ELSE KeyOf(r) \notin have'[c]
+    /\ reqs[c] \subseteq reqs'[c]
+    /\ \A d \in Children \ {c} : reqs'[d] = reqs[d] /\ resp'[d] = resp[d]
+    /\ UNCHANGED <<open, nn, assoc, pnum, sg, msgs>>
+
 DeliveredExactlyOnceStep(kind, c, ok) ==
     /\ kind = "Sync" => SyncEffect(c, ok)
+    /\ kind = "SyncOne" => SyncOneEffect(c, ok)
     \* responses leave the proxy only towards the child that asks
-    /\ kind # "Sync" => \A d \in Children : resp[d] \subseteq resp'[d]
-    /\ kind \in {"Roll", "Activate", "Wants"} =>
+    /\ kind \notin {"Sync", "SyncOne"} => \A d \in Children : resp[d] \subseteq resp'[d]
+    /\ kind \in {"Roll", "Activate", "Wants", "RWants"} =>
             UNCHANGED <<proxyVars, nn, sg, msgs>>
-    /\ kind = "Sync" => \A d \in Children \ {c} : resp[d] = resp'[d]
+    /\ kind \in {"Sync", "SyncOne"} => \A d \in Children \ {c} : resp[d] = resp'[d]
 
 TaNumbersIncreaseStep(kind, ok) ==
     /\ Le(pnum, pnum') /\ Le(rnum, rnum')
@@ -262,7 +280,9 @@ Resp(i, v, k) ==
             /\ reqs' = [c \in Children |->
                   reqs[c] \ {r \in ReqNames : <<c, r>> \in e.content}]
             /\ resp' = [c \in Children |->
-                  resp[c] \cup {r \in ReqNames : <<c, r>> \in e.content}]
+                  LET ans == {r \in ReqNames : <<c, r>> \in e.content} IN
+                  IF Mutant = "dropresp" /\ ans # {} THEN ans
+                  ELSE resp[c] \cup ans]
             /\ pnum' = e.num
             /\ rnum' = IF Mutant = "nopublish" THEN rnum ELSE e.num
             /\ UNCHANGED <<nn, assoc, sg, want, have, msgs>>
@@ -321,6 +341,36 @@ Sync(c) ==
                  \ {KeyOf(r) : r \in {x \in given : ~IsIssue(x)}}]
     /\ UNCHANGED <<open, nn, assoc, pnum, rnum, sg, msgs>>
 
+\* A child of the trust anchor whose requests reach the proxy one at a time
+\* (the name rc).  The proxy keeps a request and a response slot per child
+\* KEY, and processes one provisioning request per call
+\* (manager.rs rfc6492_process_request -> ta_slow_rfc6492_request): a child
+\* may have requests for several keys, and a response can still be waiting
+\* for it while another of its requests is answered in a later exchange.
+\* (A hosted child presents all its open requests in one synchronisation,
+\* and krill refuses signed messages addressed to the trust anchor, so in a
+\* deployment this interleaving needs an interrupted synchronisation; the
+\* harness presents the requests through the processing entry itself.)
+Remote == {"rc"} \cap Children
+RWants(c, r) ==
+    /\ c \in Remote /\ r \in ReqNames
+    /\ r \notin want[c] \cup reqs[c] \cup resp[c]
+    /\ Cardinality(want[c]) < 2
+    /\ IF IsIssue(r) THEN KeyOf(r) \notin have[c] ELSE KeyOf(r) \in have[c]
+    /\ want' = [want EXCEPT ![c] = @ \cup {r}]
+    /\ UNCHANGED <<open, nn, reqs, resp, assoc, pnum, rnum, sg, have, msgs>>
+SyncOne(c, r) ==
+    /\ c \in Remote /\ r \in want[c]
+    /\ IF r \in resp[c]
+       THEN /\ resp' = [resp EXCEPT ![c] = @ \ {r}]
+            /\ want' = [want EXCEPT ![c] = @ \ {r}]
+            /\ have' = [have EXCEPT ![c] =
+                   IF IsIssue(r) THEN @ \cup {KeyOf(r)} ELSE @ \ {KeyOf(r)}]
+            /\ reqs' = reqs
+       ELSE /\ reqs' = [reqs EXCEPT ![c] = @ \cup {r}]
+            /\ UNCHANGED <<resp, want, have>>
+    /\ UNCHANGED <<open, nn, assoc, pnum, rnum, sg, msgs>>
+
 \* the signer S1 is initialised again (new identity, numbering continued
 \* by the operator) and the proxy is associated with it
 Reassoc ==
@@ -337,7 +387,8 @@ Reassoc ==
     /\ UNCHANGED <<open, nn, reqs, resp, want, have, msgs>>
 
 Next ==
-    \/ \E c \in Children : ChildWants(c) \/ Sync(c)
+    \/ \E c \in Children \ Remote : ChildWants(c) \/ Sync(c)
+    \/ \E c \in Remote, r \in ReqNames : RWants(c, r) \/ SyncOne(c, r)
     \/ MakeReq \/ GetReq \/ OtherProxyReq \/ Reassoc
     \/ \E s \in Signers, i \in 1..Len(msgs), v \in Variants,
           k \in 1..Len(msgs) : Sign(s, i, v, k)
